@@ -238,7 +238,7 @@ theorem nsec_chain_partial (c : NsecConsts) (v : LastVariant) (origin : Name) (n
     (H3 : ∀ x ∈ L, ∀ y ∈ L, ∀ z ∈ L, subOf x y = true → subOf y z = true → subOf x z = true)
     (HC : contig L = true)
     (hv : v = .intended ∨ ∀ z, (secure c origin L).getLast? = some z → z.name ≠ []) :
-    nsecsOf (walkSorted c v origin nodes ws L) = chain c (secure c origin L) origin :=
+    nsecsOf (walkSorted c v origin nodes ws L) = chain c origin (secure c origin L) origin :=
   walk_chain c v origin nodes ws L hlook htypes (tail_nonempty_of_sorted L hsorted) ho H1 H3 HC hv
 
 /-- the full statement for the intended test (`is not None`), and with the node table being the sorted list itself -/
@@ -249,7 +249,7 @@ theorem nsec_chain_intended (c : NsecConsts) (origin : Name) (ws : Bool) (L : Li
     (H1 : L.Pairwise (fun a b => subOf a b = false))
     (H3 : ∀ x ∈ L, ∀ y ∈ L, ∀ z ∈ L, subOf x y = true → subOf y z = true → subOf x z = true)
     (HC : contig L = true) :
-    nsecsOf (walkSorted c .intended origin L ws L) = chain c (secure c origin L) origin :=
+    nsecsOf (walkSorted c .intended origin L ws L) = chain c origin (secure c origin L) origin :=
   walk_chain c .intended origin L ws L (lookup_of_sorted L hsorted) htypes (tail_nonempty_of_sorted L hsorted) ho
     H1 H3 HC (Or.inl rfl)
 
